@@ -217,6 +217,47 @@ def code_flush(calls, ts):
     return [sorted(s) for s in fl]
 
 
+def parent_arrays(ts):
+    """Per local tree: (T, parent array with -1 for none, in-tree flags) for the flush-rule model."""
+    import tskit
+    is_sample = np.zeros(ts.num_nodes, dtype=bool)
+    is_sample[ts.samples()] = True
+    out = []
+    for tree in ts.trees():
+        par = tree.parent_array[:-1].copy()
+        nch = tree.num_children_array[:-1]
+        T = int(np.sum(is_sample & (par != tskit.NULL)))
+        out.append((T, par, (par != tskit.NULL) | (nch > 0)))
+    return out
+
+
+def code_flush_all(calls, ts):
+    """Observed flush sets including sample nodes (every node `save_to_spans` is called on)."""
+    fl = [set() for _ in range(max(0, ts.num_trees - 1))]
+    for ti, node in calls:
+        if ti < ts.num_trees - 1:
+            fl[ti].add(node)
+    return fl
+
+
+def rule_block(cid, ts, parr):
+    lines = ["op rule", f"n {ts.num_nodes}"]
+    for T, par, inp in parr:
+        lines.append(f"ptree {T} " + " ".join(str(int(x)) for x in par))
+        lines.append("inprev " + " ".join("1" if b else "0" for b in inp))
+    return (cid, lines)
+
+
+def parse_rule(tokens):
+    out = []
+    for t in tokens:
+        if t == "f":
+            out.append(set())
+        else:
+            out[-1].add(int(t))
+    return out
+
+
 # ----------------------------------------------------------------------------- model side
 
 def spans_block(cid, n_nodes, recs, flush):
